@@ -615,7 +615,61 @@ def _opt_call(m):
     return {'m': m, 'kw': json.loads(json.dumps(kw)), 'data': 'ok', 'w': None}
 
 
+# lam pairs for "same call, only lam changed": moderate, and legal values whose ratio over/underflows
+LAM_STEPS = [(1e2, 1e3), (1e3, 1e2), (1e-200, 1e150), (1e150, 1e-200), (1e300, 1.0), (1e-300, 1e-300 * 4)]
+
+
+def lam_family(dim, hosts, shape_kw):
+    """Fixed grid: for every cache-using host, the same method with the same structural parameters called again with
+    ONLY lam changed -- by value (incl. extreme ratios) and in place through one caller-owned ndarray -- then once more
+    with the first lam; every call is compared with a fresh object."""
+    out = []
+    k = 0
+    for m, kw0 in hosts:
+        for a, b in LAM_STEPS:
+            for inplace in (False, True):
+                if inplace and (a, b) not in LAM_STEPS[:3]:
+                    continue
+                calls = []
+                for lam in (a, b, a):
+                    kw = json.loads(json.dumps(kw0))
+                    kw['lam'] = [lam, lam * (3 if k % 2 else 1)] if dim == 2 and k % 3 == 0 else lam
+                    c = {'m': m, 'kw': kw, 'data': 'ok', 'w': None}
+                    if inplace:
+                        c['pp'] = ['lam']
+                    calls.append(c)
+                h = dict(shape_kw[k % len(shape_kw)], dim=dim, seed=31 + k, cfg=DEFAULT_CFG, calls=calls)
+                out.append(h)
+                k += 1
+    return out
+
+
+def weights_family(dim, hosts, shape_kw):
+    """Fixed grid: the same polynomial call twice with the SAME weights object refilled in place in between."""
+    out = []
+    for k, (m, kw0) in enumerate(hosts):
+        calls = [{'m': m, 'kw': json.loads(json.dumps(kw0)), 'data': 'ok', 'w': 'pool'} for _ in range(3)]
+        out.append(dict(shape_kw[k % len(shape_kw)], dim=dim, seed=51 + k, cfg=DEFAULT_CFG, calls=calls))
+    return out
+
+
+LAM_HOSTS_1D = [('asls', {'diff_order': 2, 'max_iter': 6}), ('arpls', {'diff_order': 2, 'max_iter': 6}),
+                ('aspls', {'diff_order': 2, 'max_iter': 6}), ('iasls', {'diff_order': 2, 'max_iter': 6}),
+                ('pspline_asls', {'num_knots': 6, 'spline_degree': 3, 'diff_order': 2, 'max_iter': 6}),
+                ('pspline_arpls', {'num_knots': 6, 'spline_degree': 3, 'diff_order': 2, 'max_iter': 6}),
+                ('mixture_model', {'num_knots': 6, 'spline_degree': 3, 'diff_order': 2, 'max_iter': 6}),
+                ('pspline_iasls', {'num_knots': 6, 'spline_degree': 3, 'diff_order': 2, 'max_iter': 6})]
+W_HOSTS_1D = [('poly', {'poly_order': 3}), ('penalized_poly', {'poly_order': 3, 'max_iter': 10}),
+              ('goldindec', {'poly_order': 2, 'max_iter': 6, 'max_iter_2': 4}), ('quant_reg', {'poly_order': 2, 'max_iter': 10}),
+              ('modpoly', {'poly_order': 3, 'max_iter': 10}), ('loess', {'poly_order': 1, 'fraction': 0.4, 'max_iter': 3})]
+SHAPES_1D = [{'N': 40, 'x': 'uniform'}, {'N': 37, 'x': 'none'}, {'N': 45, 'x': 'unsorted'}]
+
+
 def enumerated_1d():
+    return _rejected_1d() + lam_family(1, LAM_HOSTS_1D, SHAPES_1D) + weights_family(1, W_HOSTS_1D, SHAPES_1D)
+
+
+def _rejected_1d():
     """Fixed grid, run before the random histories: every optimizer x every way of being rejected, on objects with a
     non-default output dtype, followed by ordinary probes (and the same optimizer called properly)."""
     out = []
@@ -951,7 +1005,9 @@ def run(ctx):
                 'invalid orders/knots/degrees/diff_order, bodies that raise after their setup); x in {None (lazy), uniform, random, '
                 'with a duplicate, unsorted}; fitter configuration cycling over output_dtype {None, float32, int64} x check_finite x assume_sorted; '
                 'a fixed grid of rejected optimizer calls (raised inside / right after / before the delegated fit, or up front) followed by probes, '
-                'and the same rejections at random positions; per history a pool of reusable argument OBJECTS (one weights array, one data array) that calls '
+                'and the same rejections at random positions; a fixed grid "same call, only lam changed" for every Whittaker / spline host in 1-D and 2-D '
+                '(by value incl. ratios 1e-200/1e150/1e300, and in place through one caller-owned ndarray) and "same polynomial call, same weights '
+                'object refilled in place"; per history a pool of reusable argument OBJECTS (one weights array, one data array) that calls '
                 'refill in place and pass again (the fresh object gets copies of the current values); echoed calls: a call repeated with one '
                 'of its own float parameters nudged by 0.4-4 % (optimizer scales, lam, p, tol, fraction, quantile); distinct = distinct history; non-trivial = at least two different polynomial orders '
                 'or two different spline keys in the history')
